@@ -187,7 +187,9 @@ pub fn mixed(rng: &mut Rng, profile: &'static str, cfg: &Cfg, run_seed: u64) -> 
             // while this thread holds an un-awaited future_sync future or a resumer, nothing it runs may block - including bodies that
             // may end up running on this very thread
             g.nb_only_now = nb_only;
-            let body = if kind == Kind::Suspend { vec![] } else { g.body(obj, is_future, 0, None) };
+            let mut body = if kind == Kind::Suspend { vec![] } else { g.body(obj, is_future, 0, None) };
+            // some future bodies keep their state (and the borrow) after completion, until the future object is dropped
+            if is_future && g.rng.chance(1, 5) { body.push(Step::Retain); }
             let id = g.prog.add_op(obj, kind, disp, body);
             if kind == Kind::After { let gate = g.prog.new_gate(); g.prog.ops[id].gate = Some(gate); }
             acts.push(TAct::Op(id));
@@ -421,6 +423,35 @@ pub fn t_cancel_fs(rng: &mut Rng, profile: &'static str, run_seed: u64, miri: bo
     if rng.chance(1, 2) { t0.push(TAct::Op(fs)); t0.extend(t1.clone()); prog.threads.push(t0); }
     else { t0.push(TAct::Op(fs)); prog.threads.push(t1); prog.threads.push(t0); }
     if rng.chance(1, 2) { let id = prog.add_op(0, Kind::Sync, Disp::None, vec![Step::Touch]); prog.threads.push(vec![TAct::Op(id)]); }
+    prog.fire.push(FAct::Fire(g));
+    prog
+}
+
+/// C08/C01/C14: a future_sync (or future_desync) operation awaited to completion whose body future keeps its state - and the borrow
+/// of the value - after returning Ready, until the future object is dropped; other operations are queued behind it by then
+pub fn t_retain(rng: &mut Rng, profile: &'static str, run_seed: u64, miri: bool) -> Program {
+    let mut prog = Program::new(run_seed, profile, "body_keeps_state_until_its_future_is_dropped");
+    // (not pool 0: an awaited future sharing its object with other threads needs a pool thread, see the legitimacy rules)
+    prog.pool = *rng.pick(&[1usize, 1, 2, 3]);
+    prog.pool_mode = *rng.pick(&[PoolMode::Warm, PoolMode::Fresh]);
+    prog.n_obj = 1;
+    let g = prog.new_gate();
+    let mut t0 = vec![];
+    for _ in 0..rng.below(2) { let id = prog.add_op(0, Kind::Desync, Disp::None, vec![Step::Touch]); t0.push(TAct::Op(id)); }
+    let kind = if rng.chance(1, 4) { Kind::FutDesync } else { Kind::FutSync };
+    let fs = prog.add_op(0, kind, Disp::Await, vec![Step::Touch, Step::Gate(g), Step::Touch, Step::Retain]);
+    t0.push(TAct::Op(fs));
+    prog.threads.push(t0);
+    // queued behind it once its body has started; the gate opens when the last non-blocking call has returned
+    let mut t1 = vec![TAct::WaitStart(fs)];
+    let mut last = None;
+    for _ in 0..rng.range(1, if miri { 2 } else { 3 }) {
+        let id = if rng.chance(2, 3) { prog.add_op(0, Kind::Desync, Disp::None, vec![Step::Touch, Step::Touch]) } else { prog.add_op(0, Kind::FutDesync, Disp::Detach, vec![Step::Touch, Step::Yield, Step::Touch]) };
+        t1.push(TAct::Op(id)); last = Some(id);
+    }
+    if rng.chance(1, 2) { let id = prog.add_op(0, Kind::Sync, Disp::None, vec![Step::Touch]); t1.push(TAct::Op(id)); }
+    prog.threads.push(t1);
+    prog.fire.push(FAct::WaitRet(last.unwrap()));
     prog.fire.push(FAct::Fire(g));
     prog
 }
@@ -734,9 +765,10 @@ pub fn generate(profile: &'static str, rng: &mut Rng, run_seed: u64, miri: bool)
         "C05" => if r < 20 { t_pipe(rng, profile, run_seed, miri, false, false) } else { mixed(rng, profile, &cfg, run_seed) },
         "C14" if r >= 100 - (if miri { 40 } else { 12 }) => t_cancel_fs(rng, profile, run_seed, miri),
         "C08" if r >= 85 => t_cancel_fs(rng, profile, run_seed, miri),
+        "C08" if r >= 73 => t_retain(rng, profile, run_seed, miri),
         "C01" if r >= 92 => t_cancel_fs(rng, profile, run_seed, miri),
-        "C14" => if r < 10 { t_pipe(rng, profile, run_seed, miri, true, false) } else if r < 20 { t_pipe(rng, profile, run_seed, miri, false, false) } else if r < 30 { t_holds(rng, profile, run_seed, miri, true) } else if r < 42 { t_try_wake_window(rng, profile, run_seed, miri) } else if r < 52 { t_stale_thread_waker(rng, profile, run_seed, miri) } else { mixed(rng, profile, &cfg, run_seed) },
-        "C01" => if r < 8 { t_pipe(rng, profile, run_seed, miri, false, false) } else if r < 16 { t_pipe(rng, profile, run_seed, miri, true, false) } else if r < 24 { t_try_wake_window(rng, profile, run_seed, miri) } else if r < 30 { t_stale_thread_waker(rng, profile, run_seed, miri) } else { mixed(rng, profile, &cfg, run_seed) },
+        "C14" => if r < 10 { t_pipe(rng, profile, run_seed, miri, true, false) } else if r < 20 { t_pipe(rng, profile, run_seed, miri, false, false) } else if r < 30 { t_holds(rng, profile, run_seed, miri, true) } else if r < 42 { t_try_wake_window(rng, profile, run_seed, miri) } else if r < 52 { t_stale_thread_waker(rng, profile, run_seed, miri) } else if r < 58 { t_retain(rng, profile, run_seed, miri) } else { mixed(rng, profile, &cfg, run_seed) },
+        "C01" => if r < 8 { t_pipe(rng, profile, run_seed, miri, false, false) } else if r < 16 { t_pipe(rng, profile, run_seed, miri, true, false) } else if r < 24 { t_try_wake_window(rng, profile, run_seed, miri) } else if r < 30 { t_stale_thread_waker(rng, profile, run_seed, miri) } else if r < 36 { t_retain(rng, profile, run_seed, miri) } else { mixed(rng, profile, &cfg, run_seed) },
         "C06" if r < 8 => t_stale_thread_waker(rng, profile, run_seed, miri),
         _ => mixed(rng, profile, &cfg, run_seed),
     }
